@@ -16,14 +16,14 @@ const NKEYS: u64 = 4;
 fn keyname(k: u64) -> String { format!("{}/x/key{}", k, k) }
 
 #[derive(Clone, Debug, PartialEq)]
-enum Op { Ins(u64, u64), Prep(u64, u64), Write(u64, u64), Commit(u64), Drop(u64), Get(u64), Rm(u64), Xdel(u64), Reopen, Slow }
+enum Op { Ins(u64, u64), Prep(u64, u64), Write(u64, u64), Commit(u64), Drop(u64), Get(u64), Rm(u64), Xdel(u64), Xadd(u64, u64), Reopen, Slow }
 
 fn op_str(o: &Op) -> String {
     match o {
         Op::Ins(k, n) => format!("ins {} {}", k, n), Op::Prep(k, n) => format!("prep {} {}", k, n),
         Op::Write(h, m) => format!("write {} {}", h, m), Op::Commit(h) => format!("commit {}", h),
         Op::Drop(h) => format!("drop {}", h), Op::Get(k) => format!("get {}", k), Op::Rm(k) => format!("rm {}", k),
-        Op::Xdel(k) => format!("xdel {}", k), Op::Reopen => "reopen".into(), Op::Slow => "nop".into(),
+        Op::Xdel(k) => format!("xdel {}", k), Op::Xadd(k, n) => format!("xadd {} {}", k, n), Op::Reopen => "reopen".into(), Op::Slow => "nop".into(),
     }
 }
 fn parse_op(l: &str) -> Option<Op> {
@@ -32,7 +32,7 @@ fn parse_op(l: &str) -> Option<Op> {
     Some(match *t.first()? {
         "ins" => Op::Ins(n(1)?, n(2)?), "prep" => Op::Prep(n(1)?, n(2)?), "write" => Op::Write(n(1)?, n(2)?),
         "commit" => Op::Commit(n(1)?), "drop" => Op::Drop(n(1)?), "get" => Op::Get(n(1)?), "rm" => Op::Rm(n(1)?),
-        "xdel" => Op::Xdel(n(1)?), "reopen" => Op::Reopen, "nop" => Op::Slow, _ => return None,
+        "xdel" => Op::Xdel(n(1)?), "xadd" => Op::Xadd(n(1)?, n(2)?), "reopen" => Op::Reopen, "nop" => Op::Slow, _ => return None,
     })
 }
 
@@ -78,6 +78,7 @@ fn run_case(cap: u64, ops: &[Op]) -> Outcome {
     let mut next_handle = 0u64;
     let mut out = Outcome { lines: vec![format!("new {}", cap)], fails: vec![], evictions: 0, panics: 0, results: BTreeMap::new() };
     let mut xdeleted: Vec<u64> = vec![];      // keys whose file the harness removed behind the cache's back
+    let mut xadded: Vec<u64> = vec![];        // keys whose file the harness wrote behind the cache's back (unknown to the index until a reopen)
     let mut leaked: u64 = 0;                  // reservations of dropped / failed entries (never released by the pinned code)
     let mut slow = false;
     // logical instant of the last *use* of each key, only used by the slow-mode mtime monitor. A two-phase store
@@ -92,7 +93,7 @@ fn run_case(cap: u64, ops: &[Op]) -> Outcome {
             Op::Slow => { slow = true; "-" }
             Op::Ins(k, n) => { let bytes = vec![b'x'; *n as usize];
                 let r = std::panic::catch_unwind(std::panic::AssertUnwindSafe(|| c.insert_bytes(keyname(*k), &bytes)));
-                if matches!(r, Ok(Ok(_))) { xdeleted.retain(|x| x != k); stamp.insert(*k, tick); } res_str(&r) }
+                if matches!(r, Ok(Ok(_))) { xdeleted.retain(|x| x != k); xadded.retain(|x| x != k); stamp.insert(*k, tick); } res_str(&r) }
             Op::Prep(k, n) => {
                 let r = std::panic::catch_unwind(std::panic::AssertUnwindSafe(|| c.prepare_add(keyname(*k), *n)));
                 let s = res_str(&r);
@@ -103,13 +104,16 @@ fn run_case(cap: u64, ops: &[Op]) -> Outcome {
                 None => "ioErr",
                 Some((e, k, reserved)) => {
                     let r = std::panic::catch_unwind(std::panic::AssertUnwindSafe(|| c.commit(e)));
-                    if matches!(r, Ok(Ok(_))) { xdeleted.retain(|x| *x != k); stamp.insert(k, hstamp[h]); } else { leaked += reserved; }
+                    if matches!(r, Ok(Ok(_))) { xdeleted.retain(|x| *x != k); xadded.retain(|x| *x != k); stamp.insert(k, hstamp[h]); } else { leaked += reserved; }
                     res_str(&r) } },
             Op::Drop(h) => { if let Some((e, _, reserved)) = handles.remove(h) { drop(e); leaked += reserved; extra = "dropped".into(); } "-" }
             Op::Get(k) => { let r = std::panic::catch_unwind(std::panic::AssertUnwindSafe(|| c.get_file(keyname(*k))));
                 if matches!(r, Ok(Ok(_))) { stamp.insert(*k, tick); } res_str(&r) }
             Op::Rm(k) => { let r = std::panic::catch_unwind(std::panic::AssertUnwindSafe(|| c.remove(keyname(*k)))); res_str(&r) }
             Op::Xdel(k) => { if std::fs::remove_file(root.join(keyname(*k))).is_ok() { xdeleted.push(*k); } "-" }
+            // another process sharing the directory stores an entry: written (atomically) behind this cache's back
+            Op::Xadd(k, n) => { let p = root.join(keyname(*k)); std::fs::create_dir_all(p.parent().unwrap()).unwrap(); let t = root.join("xadd.tmp"); std::fs::write(&t, vec![b'z'; *n as usize]).unwrap(); std::fs::rename(&t, &p).unwrap();
+                xdeleted.retain(|x| x != k); if !xadded.contains(k) { xadded.push(*k); } stamp.insert(*k, tick); "-" }
             Op::Reopen => {
                 handles.clear(); leaked = 0;               // temp files of live handles disappear with their owners
                 cache = None;
@@ -122,7 +126,7 @@ fn run_case(cap: u64, ops: &[Op]) -> Outcome {
                 }
                 extra = order.iter().map(|(k, n)| format!("{}:{}", k, n)).collect::<Vec<_>>().join(",");
                 cache = Some(LruDiskCache::new(root.clone(), cap).unwrap());
-                xdeleted.clear();
+                xdeleted.clear(); xadded.clear();
                 "-" }
         };
         *out.results.entry(res.to_string()).or_insert(0) += 1;
@@ -150,14 +154,14 @@ fn run_case(cap: u64, ops: &[Op]) -> Outcome {
             let inx = c.contains_key(keyname(k));
             match (inx, files.get(&k)) {
                 (true, None) if !xdeleted.contains(&k) => out.fails.push(Fail { kind: "indexed_file_missing".into(), detail: format!("key={} after {}", k, op_str(op)) }),
-                (false, Some(_)) => out.fails.push(Fail { kind: "orphan_file".into(), detail: format!("key={} after {}", k, op_str(op)) }),
+                (false, Some(_)) if !xadded.contains(&k) => out.fails.push(Fail { kind: "orphan_file".into(), detail: format!("key={} after {}", k, op_str(op)) }),
                 (true, Some(n)) => indexed_bytes += n,
                 _ => {} }
         }
         if !other.is_empty() { out.fails.push(Fail { kind: "foreign_file".into(), detail: format!("{:?}", other) }); }
         if ntemps != handles.len() { out.fails.push(Fail { kind: "temp_file_count".into(), detail: format!("{} temp files, {} live handles after {}", ntemps, handles.len(), op_str(op)) }); }
         let live: u64 = handles.values().map(|h| h.2).sum();
-        if xdeleted.is_empty() && c.size() != indexed_bytes + live {
+        if xdeleted.is_empty() && xadded.is_empty() && c.size() != indexed_bytes + live {
             if c.size() == indexed_bytes + live + leaked && leaked > 0 { if !out.fails.iter().any(|f| f.kind == "reservation_leak") { out.fails.push(Fail { kind: "reservation_leak".into(), detail: format!("leaked={} after {}", leaked, op_str(op)) }); } }
             else { out.fails.push(Fail { kind: "size_accounting".into(), detail: format!("size()={} indexed_bytes={} live_reservations={} leaked={} after {}", c.size(), indexed_bytes, live, leaked, op_str(op)) }); }
         }
@@ -201,7 +205,7 @@ fn gen_case(rng: &mut Rng) -> (u64, Vec<Op>) {
             13 => Op::Drop(h),
             14..=16 => Op::Get(k),
             17 => Op::Rm(k),
-            18 => Op::Xdel(k),
+            18 => if rng.chance(1, 2) { Op::Xdel(k) } else { Op::Xadd(k, sz.min(cap)) },
             _ => Op::Reopen,
         });
     }
